@@ -13,6 +13,37 @@ def handleSC (fs : List (List String)) : Option String :=
     let toks := List.range (nat! n)
     let out := class2tokensLocal toks (nat! pre) (bits.map (· == "1")) (nat! suf)
     some ("C " ++ " ".intercalate (out.map fun o => match o with | some t => toString t | none => "-"))
+  | [["tok"], [mv, mg], [nullg], nogo, table, chars] =>
+    -- table entries code:mask ; mask bits: 1 break, 2 combiner, 4 stress, 8 diacritic, 16 vowel, 32 tone, 64 semi
+    let tab : List (Nat × Nat) := table.map fun e =>
+      match e.splitOn ":" with
+      | [c, m] => (nat! c, nat! m)
+      | _ => (0, 0)
+    let maskOf := fun (c : Nat) => ((tab.find? fun p => p.1 == c).map (·.2)).getD 0
+    let bit := fun (c k : Nat) => (maskOf c / k) % 2 == 1
+    let ng := nats nogo
+    let isInfix := fun (t : List Nat) => (List.range (ng.length + 1)).any fun i => (ng.drop i).take t.length == t
+    let K : Cls := { isBreak := (bit · 1), isCombiner := (bit · 2), isStress := (bit · 4), isDiacritic := (bit · 8),
+                     isVowel := (bit · 16), isTone := (bit · 32), isSemi := (bit · 64), isNogo := isInfix,
+                     mergeVowels := mv == "1", mergeGeminates := mg == "1", nullGlyph := nat! nullg }
+    match ipa2tokens K (nats chars) with
+    | some toks => some ("T " ++ " ".intercalate (toks.map fun t => ",".intercalate (t.map toString)))
+    | none => some "IndexError"
+  | [["pro"], profile] =>
+    match prosodic (nats profile) with
+    | some ps => some ("P " ++ String.ofList (ps.map fun p => match p with
+        | .A => 'A' | .B => 'B' | .C => 'C' | .L => 'L' | .M => 'M' | .N => 'N'
+        | .X => 'X' | .Y => 'Y' | .Z => 'Z' | .T => 'T' | .brk => '_'))
+    | none => some "ValueError"
+  | [["t2c"], tok, pairs, [fs, fd]] =>
+    -- pairs: k1,k2,..=v ; flags: first char is stress / diacritic
+    let tab : List (List Nat × Nat) := pairs.map fun e =>
+      match e.splitOn "=" with
+      | [k, v] => ((k.splitOn ",").filter (· ≠ "") |>.map nat!, nat! v)
+      | _ => ([], 0)
+    let M : TokCls := { lookup := fun k => (tab.find? fun p => p.1 == k).map (·.2),
+                        isStress := fun _ => fs == "1", isDiacritic := fun _ => fd == "1", unknown := 0 }
+    some s!"C {token2class M (nats tok)}"
   | _ => none
 
 end Verif.Driver
